@@ -16,6 +16,10 @@ CHECKS = {
          "Only the helpers are covered; that validate's verdict depends on the instance only through jv(instance) needs the functional contract of validate (not yet). jv is axiomatised in /verif/spec/31_jview.gspec from the property statement. " + BASE),
  "C10": ("Zero-panic proof for the Validate call graph: for validate, Validate, annotations.*, merge, jsonNumber, jsonType, property, numPropertiesBounds, wrapf, assert, detectDraft, newResolved, isValidSchemaVersion every nil dereference, index, slice bound, nil-map write, type assertion, explicit panic/assert and every documented reflect/library panic condition (kind, range, key assignability, nil receiver) is an obligation discharged under the stated preconditions (Resolved well-formed, instance JSON-shaped in any representation); the range-over-func protocol panics are proved unreachable. Found and fixed: panic on maps with a named string key type.",
          "Coverage is the Validate call graph only: Resolve, Unmarshal, ApplyDefaults, For/ForType, equalValue/hashValue bodies are swept but not yet fully discharged, so they are not claimed. Termination (no hang) is not proved. Validate's precondition wfRS (what Resolve establishes) is assumed, not yet proved of Resolve. One loop invariant of uniqueItems is on the trusted list (see evidence). " + BASE),
+ "C11": ("Proved postconditions of equalValue for every pair of non-wrapper (not pointer/interface) JSON-shaped reflect.Values whose JSON views are scalars: two numbers are Equal exactly when their exact rational values coincide (every int/uint/float kind and json.Number, through jsonNumber's contract: no float rounding), booleans and strings by value, null only equals null, values of different JSON types are never Equal; plus all safety obligations of the array/map/pointer arms and of the recursion. Two defects found by these obligations were fixed (panic on maps with different string key types; json.Number equal to the string that spells it).",
+         "Not yet proved: the array and object arms return the JSON-equality verdict (element-wise / unordered key-value sets), and values behind pointers/interfaces (pre-finding: interface-vs-concrete and array-vs-slice comparisons return false). Reflexivity/symmetry/transitivity follow from the oracle being = on the JSON view only where the postconditions are proved. " + BASE),
+ "C18": ("Read-frame proof for the evaluator: every access to a field of Schema inside (*state).validate and in every closure nested in it (121 accesses) is an obligation stating that the field is not one of the non-asserting keywords (title, description, $comment, default, examples, deprecated, readOnly, writeOnly, format, contentEncoding, contentMediaType, contentSchema, $defs, definitions, Extra, PropertyOrder, $vocabulary); so the verdict cannot depend on them.",
+         "Covers the evaluator's reads only. Helper functions reached from validate take no *Schema except through validate's own recursion. Not covered: that Resolve's result is unaffected by such keywords (an ill-formed unreferenced $defs entry does change Resolve's outcome), and Unmarshal's treatment of unknown keys (case-insensitive matching inherited from encoding/json is a known pre-finding, not yet under contract). " + BASE),
  "C13": ("Deductive proof, for every function on the Validate call path, that every heap store targets an object allocated during the current API call (obligation modifies@<component> at every Store/MapUpdate/append-target/callee frame), i.e. Validate never writes the Resolved, its side tables, the schema tree or process-wide state. This is the no-shared-mutable-state condition the property's mechanism names.",
          "Contracts have no thread semantics: schedules are not explored; the step from 'no write to pre-existing objects' to race freedom and sequential equivalence is the Go memory model's DRF-SC argument, cited not proved. Coverage: Validate call graph only (For, Marshal, CloneSchemas, Resolve, ApplyDefaults not yet). reflect.Set*/sync.Map effects are outside the heap model. " + BASE),
  "C14": ("Deductive proof that Validate and everything it calls never write an object that existed before the call (schema tree, Resolved side tables, anything reachable from the instance through Go pointers): one modifies@ obligation per heap store, all discharged; map-range loops are verified with 'any unvisited key next', so the facts hold for every iteration order.",
@@ -29,12 +33,10 @@ NA = {
  "C05": "not yet claimed: per-field marshal/unmarshal table obligations under construction",
  "C06": "not yet claimed: dynamic-scope search loop contract under construction",
  "C09": "not yet claimed: depends on the forType contract (C04)",
- "C11": "not yet claimed: equalValue functional contract under construction",
  "C12": "not yet claimed: hashValue / uniqueItems contracts under construction",
  "C15": "not yet claimed: applyDefaults contract under construction",
  "C16": "not yet claimed: forType freshness/determinism contracts under construction",
  "C17": "not yet claimed: JSON pointer contracts under construction",
- "C18": "not yet claimed: read-frame of the evaluator under construction",
  "C19": "not yet claimed: orderedProperties contract under construction",
  "C20": "not yet claimed: CloneSchemas contract under construction",
 }
